@@ -317,7 +317,7 @@ def bases30(rng, scales, scale_by=F(1)):
             out.append(b)
     out = out[:24]
     while len(out) < 30:
-        b = F(rng.randint(-40, 4400), 4) if rng.random() < 0.7 else F(rng.randint(0, 2 * int(ths[-1]) + 8), 4)
+        b = F(rng.randint(-40, 4400), 4) if rng.random() < 0.7 else F(rng.randint(0, 2 * max(0, int(ths[-1])) + 8), 4)
         if b not in seen:
             seen.add(b)
             out.append(b)
@@ -448,7 +448,7 @@ def unclaimed_cases(rng):
 
 
 def generate(rng: random.Random, tier: str):
-    n = 1500 if tier == "quick" else 40000
+    n = 7000 if tier == "quick" else 110000
     out = [
         _mk("cts", "none", ".", "0,1", tags=("empty-node",)),
         _mk("cts", "0:1/4", ".", "0,1", tags=("empty-node",)),
@@ -465,6 +465,39 @@ def generate(rng: random.Random, tier: str):
             out += cts_cases(rng)
         if rng.random() < 0.25:
             out += unclaimed_cases(rng)
+    return out
+
+
+def enumerate_thorough():
+    """every scale with <= 3 brackets over thresholds {0,1,3,6} x rates {1/8,1/2} (65 scales, the
+    empty one included): every ordered pair for add_tax_scale, every unary operation on each,
+    bases -1..8 step 1/4"""
+    import itertools
+    T = [F(0), F(1), F(3), F(6)]
+    R = [F(1, 8), F(1, 2)]
+    bases = fmt_vals([F(k, 4) for k in range(-4, 33)])
+    scales = [[]]
+    for n in (1, 2, 3):
+        for ths in itertools.combinations(T, n):
+            for rs in itertools.product(R, repeat=n):
+                scales.append(list(zip(ths, rs)))
+    out = []
+    for a in scales:
+        for b in scales:
+            out.append(_mk("seq", fmt_scale(a) + ";" + fmt_scale(b), bases, tags=("enum",)))
+    for s in scales:
+        if not s:
+            continue
+        t = fmt_scale(s)
+        out.append(_mk("inverse", t, bases, claimed=s[0][0] == 0, tags=("enum",)))
+        out.append(_mk("avgrt", t, bases, tags=("enum",)))
+        out.append(_mk("toavg", t, tags=("enum",)))
+        out.append(_mk("copy", t, bases, tags=("enum",)))
+        for k in ("1/8", "3/2", "4"):
+            out.append(_mk("mult", k, "-", t, bases, tags=("enum",)))
+            out.append(_mk("mulr", k, t, bases, tags=("enum",)))
+            out.append(_mk("sts", k, t, bases, tags=("enum",)))
+        out.append(_mk("cts", "none", t + ";x;" + fmt_scale(scales[(len(s) * 7) % len(scales)] or s), bases, tags=("enum",)))
     return out
 
 
@@ -496,7 +529,17 @@ PROP = Prop(
     lean_targets=["OFCore.Props.C09"],
     driver="ofdrv_sca",
     generate=generate, impl=impl, oracle=oracle, nontrivial=nontrivial, canon_equal=canon_equal,
-    corpus=corpus, neighbours=neighbours,
+    corpus=corpus, neighbours=neighbours, enumerate_thorough=enumerate_thorough,
+    level_text=("Theorems (all sorted scales of any length, all bases): add_tax_scale adds the taxes for every receiver and every operand with "
+                "thresholds >= 0, also for sequences and combine_tax_scales (C09_combine_*; any eps >= 0, factor with factor + eps > 0); "
+                "inverse of a scale starting at 0 with rates < 1 exists and maps net back to gross for x >= 0 (C09_inverse, eps = 0), and where "
+                "it raises (C09_inverse_errors); threshold scaling by k > 0 and rate scaling by any k (C09_mul_thresholds, C09_scale_tax_scales, "
+                "C09_mul_rates); to_average().to_marginal() returns the same scale, preceded by (0,0) when the first threshold is positive, and "
+                "taxes identically with any factor and rounding (C09_average_marginal_roundtrip, repaired to_average); copy (C09_copy). "
+                "Carried by the correspondence only: non-mutation of operands and independence of copies (deep snapshots before/after every "
+                "operation), equality of in-place and new-scale variants, IEEE rounding."),
+    exhaustive_note=("thorough: all 65 scales with <= 3 brackets over thresholds {0,1,3,6} x rates {1/8,1/2}: the 4225 ordered pairs for "
+                     "add_tax_scale and every unary operation on each scale, bases -1..8 step 1/4"),
     extra_lean_files=["OFCore/TaxScale.lean", "OFCore/Lemmas/TaxScale.lean"],
     rule=("lines `sca seq|cts|inverse|mult|mulr|sts|toavg|avgrt|tomarg|copy …` over marginal-rate scales of 1..6 brackets with "
           "non-negative integer thresholds <= 2^10 (insertion order, shared / duplicated thresholds), rates in 2^-4 Z: pairs and "
